@@ -128,9 +128,12 @@ def read_case(args):
     detail0 = {'args': args}
     password = b'p\xc3\xa4ss word' if ci else None
     try:
-        key = W.run(W.a_init, st, settings(ci, ha, ch, kdf), password, backend=be)
+        key = W.run(W.a_init, st, settings(ci, ha, ch, {k_: v_ for k_, v_ in kdf.items() if k_ != 'may-be-rejected'}), password,
+                    backend=be)
     except Exception as e:
         shutil.rmtree(root, ignore_errors=True)
+        if kdf.get('may-be-rejected'):
+            return 1, []     # refusing the settings is fine; accepting them obliges to write what the key file says
         return 1, [(dict(sig0, what='init-failed'), dict(detail0, err=repr(e)[:200]))]
     user = W.User('u', password, key) if key else None
 
@@ -358,6 +361,11 @@ def main():
         for kdf in KDFS[1:]:
             for ci in CIPHERS[1:]:
                 rcases.append((0, ci, HASHES[0], CHUNKERS[0], kdf, 2, W.AMemBackend))
+        # key-derivation parameters an implementation might refuse or might "repair": if it accepts them, the key file
+        # must say what was actually used
+        for kdf in ({'n': 1000, 'r': 1, 'may-be-rejected': True}, {'n': 6, 'r': 1, 'may-be-rejected': True},
+                    {'n': 4, 'r': 1, 'p': 3, 'may-be-rejected': True}, {'name': 'blake2b', 'length': 48, 'may-be-rejected': True}):
+            rcases.append((0, CIPHERS[1], HASHES[0], CHUNKERS[0], kdf, 2, W.MemBackend))
         n = 0
         for k, vs in common.pmap(read_case, common.shuffled(rcases, 'r'), ordered=False, chunksize=4):
             n += k
